@@ -30,6 +30,13 @@ PATTERNS = [
     ("x.y", ["x~y", "x1y", "x~1y"], ["xy", "a"]),
     ("^.{2}$", ["ab", "é0"], ["a", "abc", ""]),
     ("[~/%]", ["~x", "a/b", "%25"], ["a", "0"]),
+    # legitimate Python regular expressions that cannot be glued together with "|":
+    ("(?i)^data-", ["DATA-a", "data-x"], ["x-b", "dat"]),
+    ("(?P<n>a)b", ["ab", "xab"], ["b", "a"]),
+    ("(?P<n>c)d", ["cd"], ["c", "d"]),
+    ("(a)\\1", ["aa", "xaa"], ["a", "ab"]),
+    ("(b)\\1", ["bb"], ["b", "ab"]),
+    ("^x-", ["x-b", "x-"], ["ax-", "x"]),
 ]
 FORMATS = ["email", "ipv4", "ipv6", "date", "regex", "ip-address", "time", "idn-email", "unknown-format", "", "hostname"]
 ANNOTATIONS = ["title", "description", "default", "examples", "$comment", "definitions", "readOnly"]
@@ -445,8 +452,23 @@ class G:
         return copy.deepcopy(r.choice(cands))
 
     # ------------------------------------------------------------------ malformed
+    def near_miss(self, old):
+        """a value just outside (or at the edge of) the shape of `old`"""
+        r = self.r
+        if isinstance(old, bool):
+            return r.choice([0, 1, "true", None, []])
+        if isinstance(old, (int, float)):
+            return r.choice([0, 0.0, -0.0, -1, -0.5, 1e-400, True, "1", None, old * -1 if old == old else 0, 0.5, [old]])
+        if isinstance(old, str):
+            return r.choice([1, "", None, [old], {old: {}}, True])
+        if isinstance(old, list):
+            return r.choice([{}, "x", [], [1], [[]], None, old + old, True])
+        if isinstance(old, dict):
+            return r.choice([[], True, "x", {}, None, [old], 0])
+        return r.choice([0, "", [], {}])
+
     def malform(self, s, n=1):
-        """replace n keyword values, anywhere in the schema, by random JSON values"""
+        """replace n keyword values, anywhere in the schema, by random JSON values or near misses"""
         s = copy.deepcopy(s)
         r = self.r
         for _ in range(n):
@@ -465,7 +487,7 @@ class G:
             if not spots:
                 return self.value(1)
             c, k = r.choice(spots)
-            c[k] = self.value(1)
+            c[k] = self.near_miss(c[k]) if r.random() < 0.6 else self.value(1)
         return s
 
 
